@@ -220,6 +220,9 @@ Fixpoint bytes_eqb (a b : list N) : bool :=
   | _, _ => false
   end.
 
+(* Python adds a truth value as an int: True = 1, False = 0 (used by the regenerated strings_differ) *)
+Definition b2n (b : bool) : N := if b then 1 else 0.
+
 (* util.strings_differ with hmac.compare_digest *)
 Definition strings_differ (s1 s2 : list N) : bool :=
   let len_eq := Nat.eqb (length s1) (length s2) in
@@ -367,13 +370,17 @@ Definition builtin_options : options :=
   mkOptions builtin_require (Some builtin_token) (Some builtin_header) builtin_safe
             builtin_check_origin builtin_allow_no_origin (negb builtin_callback_none).
 
+(* the DefaultCSRFOptions object set_default_csrf_options registers: each argument as passed, else its signature default *)
+Definition options_of_defaults (d : defaults) : options :=
+  mkOptions (dflt (d_require d) sdc_require) (dflt (d_token d) (Some sdc_token))
+            (dflt (d_header d) (Some sdc_header)) (dflt (d_safe d) sdc_safe)
+            (dflt (d_check_origin d) sdc_check_origin)
+            (dflt (d_allow_no_origin d) sdc_allow_no_origin) (d_callback d).
+
 Definition effective (c : config) : options :=
   match c_defaults c with
   | None => builtin_options
-  | Some d => if negb (defaults_visible (c_defaults_first c)) then builtin_options else mkOptions (dflt (d_require d) sdc_require) (dflt (d_token d) (Some sdc_token))
-                        (dflt (d_header d) (Some sdc_header)) (dflt (d_safe d) sdc_safe)
-                        (dflt (d_check_origin d) sdc_check_origin)
-                        (dflt (d_allow_no_origin d) sdc_allow_no_origin) (d_callback d)
+  | Some d => if negb (defaults_visible (c_defaults_first c)) then builtin_options else options_of_defaults d
   end.
 
 Definition truthy (o : option text) : bool := match o with Some (_ :: _) => true | _ => false end.
@@ -506,6 +513,47 @@ Fixpoint stores_trace (pr : params) (c : config) (s : stores) (steps : list (N *
   | (k, r) :: rest =>
       let v := snd (client_step pr c (st_get k s) r) in
       v :: stores_trace pr c (st_set k v s) rest
+  end.
+
+(* ------------------------------------------------------------------ the public token API called by the view body
+   pyramid.csrf.get_csrf_token(request) / new_csrf_token(request): what a page does to show / rotate its token.
+   The body runs only when the outcome is Ran (then a response is produced, so the change reaches the client). *)
+Inductive action := ANone | AGet | ANew.
+Definition body_store (s : storage) (a : action) (st : option text) (fresh : text) : option text :=
+  match a with
+  | ANone => st
+  | AGet => store_after_get s st fresh          (* mints exactly when none is held *)
+  | ANew => Some fresh                          (* always replaces the held token *)
+  end.
+
+Definition client_step_a (pr : params) (c : config) (st : option text) (ar : action * request) : outcome * option text :=
+  let '(out, st1) := client_step pr c st (snd ar) in
+  (out, match out with Ran => body_store (c_storage c) (fst ar) st1 (r_fresh (snd ar)) | _ => st1 end).
+
+Fixpoint run_client_a (pr : params) (c : config) (st : option text) (rs : list (action * request)) : list outcome * option text :=
+  match rs with
+  | [] => ([], st)
+  | r :: rest =>
+      let '(out, st') := client_step_a pr c st r in
+      let '(outs, st'') := run_client_a pr c st' rest in
+      (out :: outs, st'')
+  end.
+
+Fixpoint run_clients_a (pr : params) (c : config) (s : stores) (steps : list (N * (action * request))) : list outcome * stores :=
+  match steps with
+  | [] => ([], s)
+  | (k, r) :: rest =>
+      let '(out, v) := client_step_a pr c (st_get k s) r in
+      let '(outs, s') := run_clients_a pr c (st_set k v s) rest in
+      (out :: outs, s')
+  end.
+
+Fixpoint stores_trace_a (pr : params) (c : config) (s : stores) (steps : list (N * (action * request))) : list (option text) :=
+  match steps with
+  | [] => []
+  | (k, r) :: rest =>
+      let v := snd (client_step_a pr c (st_get k s) r) in
+      v :: stores_trace_a pr c (st_set k v s) rest
   end.
 
 (* ================================================================== declarative specification *)
@@ -692,8 +740,13 @@ Definition put_parsed (p : parsed) : val :=
   | PUnmodelled => VL [VI 2]
   end.
 
-Definition get_step (v : val) : option (N * request) :=
-  match v with VL [VI k; r] => olet r := get_request r in Some (Z.to_N k, r) | _ => None end.
+Definition get_action (z : Z) : action := match z with 1%Z => AGet | 2%Z => ANew | _ => ANone end.
+Definition get_step (v : val) : option (N * (action * request)) :=
+  match v with
+  | VL [VI k; r] => olet r := get_request r in Some (Z.to_N k, (ANone, r))
+  | VL [VI k; r; VI a] => olet r := get_request r in Some (Z.to_N k, (get_action a, r))
+  | _ => None
+  end.
 Definition get_store (v : val) : option (N * option text) :=
   match v with VL [VI k; t] => olet t := get_opt get_text t in Some (Z.to_N k, t) | _ => None end.
 
@@ -702,7 +755,8 @@ Definition get_store (v : val) : option (N * option text) :=
               caller list afterwards;
               per request [spec runs; spec token ok; spec origin ok (initial list); wf_tokens; parse_defined] ]
    case = [1; url; oracle]            answer = urlparse_m
-   case = [2; config; stores; steps]  answer = [ per step [outcome; client's store afterwards];
+   case = [2; config; stores; steps]  (step = [client; request] or [client; request; body action 0/1/2 = none/get/new])
+                                      answer = [ per step [outcome; client's store afterwards];
                                                  per step [spec runs; wf_tokens; parse_defined] (on the resolved request) ] *)
 Definition run_C12 (v : val) : val :=
   ret_or_bad (
@@ -713,11 +767,11 @@ Definition run_C12 (v : val) : val :=
         olet c := get_config cfg in olet st := get_list_of get_store st in
         olet steps := get_list_of get_step steps in
         let pr := the_params (c_storage c) in
-        let outs := fst (run_clients pr c st steps) in
-        let trace := stores_trace pr c st steps in
-        let before := (fix go (s : stores) (l : list (N * request)) (t : list (option text)) : list request :=
+        let outs := fst (run_clients_a pr c st steps) in
+        let trace := stores_trace_a pr c st steps in
+        let before := (fix go (s : stores) (l : list (N * (action * request))) (t : list (option text)) : list request :=
                          match l, t with
-                         | (k, r) :: l', v :: t' => with_client_state (st_get k s) r :: go (st_set k v s) l' t'
+                         | (k, (_, r)) :: l', v :: t' => with_client_state (st_get k s) r :: go (st_set k v s) l' t'
                          | _, _ => []
                          end) st steps trace in
         Some (VL [VL (map (fun ov => VL [put_outcome (fst ov); vopt VT (snd ov)]) (combine outs trace));
